@@ -75,6 +75,16 @@ def ps_dom_py(style, data):
     is16 = data[:2] == b"\xff\xfe"
     w = widen if is16 else (lambda x: x)
     first, crlf, lf = w(st + BEGIN + en + b"\r\n"), w(b"\r\n"), w(b"\n")
+    if is16:
+        # readLine takes the byte after every line feed; a file whose final byte is such a line feed is outside the domain
+        p = 0
+        while True:
+            j = data.find(b"\n", p)
+            if j < 0:
+                break
+            if j == len(data) - 1:
+                return False
+            p = j + 2
     pos, at = 0, None
     while True:
         i = data.find(first, pos)
